@@ -1,6 +1,8 @@
 """C12 - verification is pure: no argument mutation, no state carried across calls."""
 from __future__ import annotations
 
+import ast
+
 import os
 
 from sa import AnalysisError
@@ -90,9 +92,20 @@ def run(ctx, only=None):
     # ---- R3 caching constructs
     for obj, txt, dotted in decorators(prog, LIB):
         ok = txt in DECORATOR_WHITELIST or (dotted or "") in DECORATOR_WHITELIST
+        why_not = "is not in the stateless whitelist (a cache would carry verdicts across calls)"
+        if not ok:
+            from sa.effects import repo_decorator_is_stateless
+
+            for dnode in obj.node.decorator_list:
+                tnode = dnode.func if isinstance(dnode, ast.Call) else dnode
+                if ast.unparse(tnode) == txt:
+                    res = repo_decorator_is_stateless(prog, obj.mod, dnode)
+                    if res is not None:
+                        ok = res[0]
+                        why_not = "is defined in the library and keeps state between calls: " + res[1]
         s = prog.site(obj.mod, obj.node, obj.qualname)
         ctx.count("R3.decorators")
-        ctx.ob("R3", "decorator|%s|%s" % (obj.qualname, txt), s.loc(), "decorator @%s on %s %s" % (txt, obj.qualname, "keeps no state" if ok else "is not in the stateless whitelist (a cache would carry verdicts across calls)"), ok)
+        ctx.ob("R3", "decorator|%s|%s" % (obj.qualname, txt), s.loc(), "decorator @%s on %s %s" % (txt, obj.qualname, "keeps no state" if ok else why_not), ok)
     for fi, site in mutable_defaults(prog, LIB):
         ctx.ob("R3", "mutable-default|%s|%s" % (fi.qualname, site.text), site.loc(), "%s has a mutable default argument (%s): state shared across calls" % (fi.qualname, site.text), False)
     ctx.ob("R3", "scan", "library modules", "decorators and default arguments of %d library functions scanned" % len([1 for q, f in prog.funcs.items() if f.mod.short in LIB]), True, nontrivial=False)
